@@ -90,7 +90,7 @@ AN == {[Cfg0 EXCEPT !.an = an] : an \in BOOL}
 Cfgs(t) ==
   CASE t \in {"Integer", "Number", "Range"} -> Bounded
     [] t = "List" -> {[Cfg0 EXCEPT !.an = an, !.it = it] : an \in BOOL, it \in {"none", "int", "str", "float"}}
-    [] t \in {"Selector", "ListSelector"} -> {[Cfg0 EXCEPT !.an = an, !.objs = o] : an \in BOOL, o \in {"strs", "ints", "mixed"}}
+    [] t \in {"Selector", "ListSelector"} -> {[Cfg0 EXCEPT !.an = an, !.objs = o] : an \in BOOL, o \in {"strs", "ints", "mixed", "dictints"}}
     [] t = "ClassSelector" -> {[Cfg0 EXCEPT !.an = an, !.cls = c] : an \in BOOL, c \in {"int", "str", "float", "intstr", "bool", "list", "dict"}}
     [] OTHER -> AN
 
@@ -100,11 +100,12 @@ InB(v, c) == /\ (c.lo = NoB \/ IF c.il THEN Ord(v) >= c.lo ELSE Ord(v) > c.lo)
 Ints == {I(-1), I(0), I(1), I(2), I(4), I(5)}
 Nums == Ints \cup {F(-3), F(0), F(1), F(3), F(8), F(9)}
 ObjsOf(c) == CASE c.objs = "strs" -> {S("a"), S("b")} [] c.objs = "ints" -> {I(1), I(2)} [] c.objs = "mixed" -> {I(1), S("a"), F(3)}
+               [] c.objs = "dictints" -> {I(1), I(2)}        \* declared as a dict {"one": 1, "two": 2}: the objects are its values
 Vals(t, c) ==
   (IF c.an THEN {None} ELSE {}) \cup
   CASE t = "Integer" -> {v \in Ints : InB(v, c)}
     [] t = "Number" -> {v \in Nums : InB(v, c)}
-    [] t = "String" -> {S(""), S("a1"), S("unicode")}
+    [] t = "String" -> {S(""), S("a1"), S("unicode"), S("null"), S("1")}     \* strings that look like other JSON
     [] t = "Boolean" -> {Bo(TRUE), Bo(FALSE)}
     [] t = "Color" -> {S("#ff0000"), S("#abc")}
     [] t = "Tuple" -> {Tup(<<I(1), S("a1")>>), Tup(<<F(3), None>>), Tup(<<Lst(<<I(1)>>), Bo(TRUE)>>)}
@@ -183,7 +184,11 @@ OutOfBoundsRejected ==
   t \in {"Integer", "Number"} =>
      \A j \in Probes : (~InB([n2 |-> j.n2], c)) => ~Validates(Schema(t, c), j)
 
+\* serialization of a whole object {x, other} under subset=: exactly the named parameters, the empty subset included
+ParamNames == {"x", "other"}
+SubsetKeys == [sub \in SUBSET ParamNames |-> sub]
 Table == [t |-> t, c |-> c,
+          subsets |-> {[sub |-> sub, keys |-> SubsetKeys[sub]] : sub \in SUBSET ParamNames},
           cases |-> {[v |-> v, ser |-> Ser(t, v)] : v \in Vals(t, c)},
           schema |-> IF t \in SchemaTypes THEN Schema(t, c) ELSE Sch("none"),
           probes |-> IF t \in {"Integer", "Number"} THEN {[j |-> j, valid |-> Validates(Schema(t, c), j)] : j \in Probes} ELSE {}]
